@@ -10,7 +10,7 @@ ID = "C07"
 LEVEL = "exploration"
 ENGINE = "E1"
 TECHNIQUE = "bounded exhaustive enumeration of rules (every operator leading) x listings x both search modes on the real code; every reported match decoded against the record offset table and the reference match relation"
-RULE = ("rules: the C02 (repetition) and C04 ($not) rule families (quick: every third rule; thorough: all), the complete C05 (capture) family, the depth-1 C03 operator trees, "
+RULE = ("rules: the C02 (repetition) and C04 ($not) rule families (quick: every third rule; thorough: all), the C05 (capture) family (quick: every second rule), the depth-1 C03 operator trees, "
         "and an @any family using the shipped tests/macros/jasm_macros.yaml (@any as mnemonic, as every operand position "
         "including one past the last operand, repeated, inside $deref) (every 5th $not rule also on listings with 16-digit addresses, every 7th on listings with zero-padded addresses; the C01 single-item rules under substring and full-match flags on listings with an address spelling a mnemonic) x EVERY listing of each family's bounded listing set "
         "x all-matches and first-match mode x full-text and address-only results. Also: listings of 32800/65600 (thorough ..131200) instructions with the only occurrence at every block-boundary position, and single matches covering 150..2000 instructions (full text must be the whole run). Oracle per reported match: starts at a "
@@ -70,8 +70,8 @@ def all_rules(tier):
     rules = []
     for name, mod in _mods().items():
         for k, rc in enumerate(mod.all_rules(tier)):
-            if tier == "quick" and name in ("C02", "C04") and k % 3:
-                continue    # quick: every third rule of the two largest families (they are explored in full by their own checks)
+            if tier == "quick" and ((name in ("C02", "C04") and k % 3) or (name == "C05" and k % 2)):
+                continue    # quick: every third / second rule of the three largest families (explored in full by their own checks)
             if name == "C03" and not (rc.family.startswith("I1") or rc.family.startswith("O/only") or rc.family.startswith("D/")):
                 continue
             rules.append(e1.RuleCase(f"{name}:{rc.family}", rc.pattern, f"{name}:{rc.lset}", cfgs=rc.cfgs[:1], want=W))
